@@ -98,6 +98,10 @@ Definition reject_at (p : pos_t) (chain : list pos_t) : judge :=
 
 Definition corr_fuel : nat := 6000.
 
+(** The comparison is on what the property constrains — accepted / rejected,
+    position, include chain — not on the wording of the message: the error
+    class the harness derives from the message text ([cls], [names]) is only
+    compared in [parse_kind_note], which never makes a violation. *)
 Definition parse_model_bad (c : parse_case) : bool :=
   let run jd := parse_config corr_fuel (pc_fs c) (pc_ip c) (pc_defs c) (pc_main c) jd in
   match pc_obs c with
@@ -109,18 +113,31 @@ Definition parse_model_bad (c : parse_case) : bool :=
       end
   | PRejected cls (Some p) chain names _ _ =>
       match run (reject_at p chain) with
-      | RErr d => negb (opos_eqb (d_pos d) (Some p) && chain_eqb (d_chain d) chain && kind_ok (d_kind d) cls names)
+      | RErr d => negb (opos_eqb (d_pos d) (Some p) && chain_eqb (d_chain d) chain)
       | _ => true
       end
   | PRejected cls None _ _ _ _ =>
-      if ((cls =? 20) || (cls =? 21))%N then
+      if ((cls =? 20) || (cls =? 21))%N then       (* newReader failed (phase, not wording) *)
         match run accept_all with
-        | RErr d => negb (kind_ok (d_kind d) cls [])
+        | RErr d => match d_kind d with EMainNotFound | EMainOpenError => false | _ => true end
         | _ => true
         end
-      else if (cls =? 30)%N then
+      else if (cls =? 30)%N then                    (* compile phase: parsing went through *)
         match run accept_all with ROk _ => false | _ => true end
       else false       (* an error of parseRole itself: the model cannot place it *)
+  end.
+
+(** Position and chain agree but the message class read off the text is not
+    the model's kind: worth a note in the evidence (a reworded message does
+    this), never a violation. *)
+Definition parse_kind_note (c : parse_case) : bool :=
+  match pc_obs c with
+  | PRejected cls (Some p) chain names _ _ =>
+      match parse_config corr_fuel (pc_fs c) (pc_ip c) (pc_defs c) (pc_main c) (reject_at p chain) with
+      | RErr d => opos_eqb (d_pos d) (Some p) && chain_eqb (d_chain d) chain && negb (kind_ok (d_kind d) cls names)
+      | _ => false
+      end
+  | _ => false
   end.
 
 (** ** The property's plain meaning on an observation *)
@@ -155,7 +172,7 @@ Definition kw_include_nosp : bs := [x69; x6e; x63; x6c; x75; x64; x65].
 Definition position_exists (c : parse_case) (cls : N) (p : pos_t) : bool :=
   match line_of (pc_files c) p with
   | Some _ => true
-  | None => (cls =? 1)%N && existsb (bytes_eqb (fst p)) (pc_dirs c) && (snd p =? 1)
+  | None => existsb (bytes_eqb (fst p)) (pc_dirs c) && (snd p =? 1)
   end.
 
 (** The logical line that starts with the first of these physical lines
@@ -184,7 +201,8 @@ Definition chain_entry_ok (c : parse_case) (p : pos_t) : bool :=
     1 panicked, 2 timed out, 3 the position named does not exist in the input,
     4 an entry of the include chain is not an existing include line, 5 the
     quoted line is not that line of that file, 6 a planted fault was reported
-    elsewhere (or with another chain / kind), 7 a planted fault was not
+    elsewhere or with another include chain (the wording of the message is
+    not looked at), 7 a planted fault was not
     reported at all, 8 the include chain of the diagnostic is unreadable. *)
 Definition parse_oracle_code (c : parse_case) : N :=
   match pc_obs c with
@@ -208,7 +226,7 @@ Definition parse_oracle_code (c : parse_case) : N :=
         if negb (c1 =? 0) then c1
         else match pc_expect c with
              | Some (ecls, epos, echain) =>
-                 if opos_eqb pos (Some epos) && chain_eqb chain echain && (cls =? ecls) then 0 else 6
+                 if opos_eqb pos (Some epos) && chain_eqb chain echain then 0 else 6
              | None => 0
              end
   end%N.
@@ -252,12 +270,12 @@ Definition read_model_bad (c : read_case) : bool :=
           || match o, rc_end c with
              | ROk _, REStop => false
              | RErr d, REErr (PRejected cls pos chain names _ _) =>
-                 negb (opos_eqb (d_pos d) pos && chain_eqb (d_chain d) chain && kind_ok (d_kind d) cls names)
+                 negb (opos_eqb (d_pos d) pos && chain_eqb (d_chain d) chain)
              | _, _ => true
              end
       | RErr d =>
           match rc_end c with
-          | REErr (PRejected cls None _ _ _ _) => negb (kind_ok (d_kind d) cls [])
+          | REErr (PRejected cls None _ _ _ _) => false
           | _ => true
           end
       | _ => true
@@ -272,17 +290,38 @@ Definition read_oracle_bad (c : read_case) : bool :=
   end.
 
 (** * The edit splitter: (script line, observation) with observation
-      0 = got past the splitter, 1 = "invalid syntax", 2 = panic, 3 = the line
-      is no edit clause. *)
+      0 = no error at all, 1 = some error (whatever its text), 2 = panic or
+      process death.  Later stages (regexp.Compile, the storyline check) may
+      still refuse what the splitter lets through. *)
 Definition edit_model_bad (c : bs * N) : bool :=
   let '(line, o) := c in
   match edit_of_line line with
-  | None => negb (o =? 3)%N
+  | None => negb (o =? 1)%N                      (* no edit clause: "unknown syntax" *)
   | Some cmd =>
       match edit_split cmd with
-      | EditOk _ _ => negb (o =? 0)%N
+      | EditOk _ _ => negb ((o =? 0) || (o =? 1))%N
       | EditInvalid => negb (o =? 1)%N
       | EditPanic => negb (o =? 2)%N
       end
   end.
 Definition edit_oracle_bad (c : bs * N) : bool := (snd c =? 2)%N.
+
+(** * Scene shorthands: (the token written after `scene`, observation as
+      above) for the clause `scene TOKEN mood starts red`, TOKEN one rune that
+      the regexp class \S accepts or one byte. *)
+Definition shorthand_model_bad (c : bs * N) : bool :=
+  let '(tok, o) := c in
+  match tok with
+  | [b] => if re_space b then negb (o =? 1)%N     (* moodChangeRe does not match *)
+           else match validate_shorthand (trim_space tok) with
+                | ShOk _ => negb (o =? 0)%N
+                | ShBadLength | ShBadClass => negb (o =? 1)%N
+                | ShPanic => negb (o =? 2)%N
+                end
+  | _ => match validate_shorthand (trim_space tok) with
+         | ShOk _ => negb (o =? 0)%N
+         | ShBadLength | ShBadClass => negb (o =? 1)%N
+         | ShPanic => negb (o =? 2)%N
+         end
+  end.
+Definition shorthand_oracle_bad (c : bs * N) : bool := (snd c =? 2)%N.
